@@ -110,7 +110,9 @@ def specs(covs, spec):
 
 
 def full(n, pos, arr):
-    out = np.full(n, np.nan)
+    """array aligned with the input row labels (labels are positions unless the caller deleted rows first)"""
+    pos = np.asarray(pos, dtype=int)
+    out = np.full(max(n, int(pos.max()) + 1 if len(pos) else n), np.nan)
     out[np.asarray(pos, dtype=int)] = np.asarray(arr, dtype=float)
     return out
 
